@@ -16,6 +16,9 @@ RULES_TEXT = {
     'R3': 'R3 get_unchecked(_mut) -> checked indexing (adds in-bounds obligation)',
     'R4': 'R4 debug_assert!(C) -> assert(C) (adds obligation)',
     'R5': 'R5 assert!/panic!/unreachable! -> call of diverging external_body vpanic()',
+    'R7': 'R7 `(a..=b).contains(&x)` -> `a <= x && x <= b`',
+    'R8': 'R8 `_ = e;` -> `let _discard = e;`',
+    'R5u': 'R5u unreachable!() -> vunreachable() with `requires false` (adds obligation: unreachable)',
     'R6': 'R6 per-function monomorphisation / syntax substitutions listed in the .vc file',
 }
 
